@@ -365,10 +365,23 @@ fn perturbations(e: &Entry, v: &dyn DynValue, enc: &[u8], budget_us: usize, ctx:
                 windows.push((p, l));
             }
         }
-        let take = if heavy { 2 } else { 6 };
+        // the largest fields (real length prefixes) and an even sample of the rest
+        let take = if heavy { 2 } else { 5 };
+        let mut chosen: Vec<(usize, usize)> = vec![];
+        let mut by_len = windows.clone();
+        by_len.sort_by(|a, b| b.1.cmp(&a.1).then(a.0.cmp(&b.0)));
+        // (a decode that fails early costs next to nothing: the large fields are
+        // all tried, also for the expensive types)
+        chosen.extend(by_len.iter().filter(|w| w.1 >= 8).take(12));
+        chosen.extend(by_len.iter().take(take));
+        chosen.dedup();
         let step = (windows.len() / take).max(1);
-        for (p, l) in windows.iter().step_by(step).take(take) {
-            let (p, l) = (*p, *l);
+        for w in windows.iter().step_by(step).take(take) {
+            if !chosen.contains(w) {
+                chosen.push(*w);
+            }
+        }
+        for (p, l) in chosen {
             for tail in [[0u8; 4], [enc[p], enc[p + 1], enc[p + 2], enc[p + 3]]] {
                 let mut alt = Vec::with_capacity(len);
                 alt.extend_from_slice(&enc[..p]);
